@@ -192,6 +192,14 @@ func ScanSnapshot(in io.Reader, prefix io.Writer, opts *Opts) (*Snapshot, []byte
 			}
 		}
 	}
+	if suffix == nil && s.state == done {
+		// The trace ended on a line that belongs to it (the closing separator
+		// of a race report): whatever was already read past that line is
+		// handed back, like after any other trace.
+		if b := r.buffered(); len(b) != 0 {
+			suffix = append([]byte{}, b...)
+		}
+	}
 	if s.Goroutines != nil {
 		if opts.NameArguments {
 			nameArguments(s.Goroutines)
